@@ -1173,6 +1173,12 @@ class Inliner:
                 for st, out in inserts:
                     k = next(k for k, b in enumerate(m.tree.body) if b is st)
                     m.tree.body[k + 1:k + 1] = out
+                    # the restored names are bound by their definitions now; a renaming import (`x as y`) stays for the body's own use of x
+                    bound = {n.id for c in out for n in ast.walk(c) if isinstance(n, ast.Name) and isinstance(n.ctx, ast.Store)} | \
+                        {c.name for c in out if isinstance(c, (ast.FunctionDef, ast.ClassDef))}
+                    st.names = [a for a in st.names if not ((a.asname or a.name) in bound and a.asname in (None, a.name))] or st.names[:0]
+                    if not st.names:
+                        m.tree.body.remove(st)
                 relink(m)
                 m._symbols = None
                 self.prog._class_index = None
